@@ -389,8 +389,11 @@ def run_call(case, ctx):
                 ctx.count('unequal_widths')
             opt = {}
             if 'add_outputs' in case:
-                opt['add_outputs'] = case['add_outputs']
                 ctx.count('opt:add_outputs=%s' % case['add_outputs'])
+                if case['add_outputs'] or not A.CUR.get('omit_defaults'):
+                    opt['add_outputs'] = case['add_outputs']
+                else:
+                    ctx.count('optional_argument_omitted')   # the caller who does not want outputs leaves the option out
             if case.get('result_labels') is not None:
                 ctx.count('opt:result_labels')
                 rl_ = case['result_labels']
